@@ -416,14 +416,20 @@ RulesHold(rules, v) == rules = <<>> \/ \E i \in 1..Len(rules) : RuleSetHolds(rul
 
 MaskCase(m, v, cw, T) == [val |-> v, cw |-> cw, T |-> T, G |-> m.G, mode |-> m.mode, mc |-> m.mc, word |-> m.word]
 Maskable(b) == b.t \in {"s", "n"} /\ b.v # <<>>
-(* do_if of a mask: a condition on the EVENT (evaluated on the document as it arrives, once per event and
-   mask); the subset used by the driver: field equal one-of-values (a missing field equals nothing), not, or,
-   and.  A mask whose do_if does not hold for this event looks at none of its leaves.                     *)
+(* do_if of a mask: a condition on the EVENT AS IT ARRIVES (ev.before) -- never on what the plugin has already
+   rewritten in it (mechanism M_DoIfOnOriginalEvent, see MaskDoIf.tla); the subset used by the driver: field
+   equal / prefix / suffix / contains one-of-values (a missing field satisfies none), not, or, and.  A mask
+   whose do_if does not hold for this event looks at none of its leaves.                                   *)
 RECURSIVE CondHolds(_, _)
 CondHolds(ev, c) ==
-  CASE c.op = "equal" -> \E l \in 1..Len(ev.before) :
-                            /\ ev.before[l].p = c.field /\ ev.before[l].t = "s"
-                            /\ \E k \in 1..Len(c.vals) : c.vals[k] = ev.before[l].v
+  CASE c.op \in {"equal", "prefix", "suffix", "contains"} ->
+         \E l \in 1..Len(ev.before) :
+            /\ ev.before[l].p = c.field /\ ev.before[l].t = "s"
+            /\ \E k \in 1..Len(c.vals) :
+                 CASE c.op = "equal"    -> c.vals[k] = ev.before[l].v
+                   [] c.op = "prefix"   -> IsPrefixOf(c.vals[k], ev.before[l].v)
+                   [] c.op = "suffix"   -> IsSuffixOf(c.vals[k], ev.before[l].v)
+                   [] c.op = "contains" -> IsInfixOf(c.vals[k], ev.before[l].v)
     [] c.op = "not"   -> ~CondHolds(ev, c.args[1])
     [] c.op = "or"    -> \E k \in 1..Len(c.args) : CondHolds(ev, c.args[k])
     [] c.op = "and"   -> \A k \in 1..Len(c.args) : CondHolds(ev, c.args[k])
